@@ -623,6 +623,39 @@ func TestC13_K_SharedSubtrees(t *testing.T) {
 			fmt.Printf("FINDING property=C13 key=C13-shared-empty-file-subtrees :: reading a %d-block, zero-length file whose every node links one all-empty child twice took %d block loads (budget 200 x blocks = %d): work grows as 2^blocks\n", fst.Len(), loads, 200*fst.Len())
 		}
 	}
+	// and for files that record no sizes at all (no FileSize, no BlockSizes: the length has to be measured by opening the
+	// children): every level links the same dag-pb child twice. Asking such a file for its end measures each child once per
+	// path, although nothing is read
+	{
+		node := &mnode{HasData: true, UFS: &ufsFields{Type: 2, HasData: true, Data: []byte("x")}}
+		for level := 0; level < 14; level++ {
+			node = &mnode{HasData: true, UFS: &ufsFields{Type: 2}, Links: []mlink{{Child: node}, {Child: node}}}
+		}
+		ust := NewStore()
+		uls := ust.LinkSystem()
+		uroot, err := node.store(ust, uls)
+		if err != nil {
+			t.Fatal(err)
+		}
+		urn, err := loadReified(uls, uroot, "unixfs")
+		if err != nil {
+			t.Fatalf("reify: %v", err)
+		}
+		ust.ResetLogs()
+		ust.LoadBudget = 1 << 20
+		var end int64
+		p, _ := safe(func() {
+			rs, err := urn.(datamodel.LargeBytesNode).AsLargeBytes()
+			if err == nil {
+				end, _ = rs.Seek(0, io.SeekEnd)
+			}
+		})
+		if p != nil {
+			fmt.Printf("FINDING property=C13 key=C13-shared-unsized-file-panic :: seeking to the end of a 15-block file of shared subtrees without recorded sizes panicked: %v\n", p)
+		} else if loads := len(ust.ReadLog()); loads > 200*ust.Len() {
+			fmt.Printf("FINDING property=C13 key=C13-shared-unsized-file-seek :: Seek(0, End) = %d on a %d-block file without recorded sizes whose every node links the same child twice took %d block loads (budget 200 x blocks = %d): work grows as 2^blocks\n", end, ust.Len(), loads, 200*ust.Len())
+		}
+	}
 	// Length() and lookups on a 40-block chain (2^39 paths) must return promptly: they are memoised per shard / follow one path
 	st2 := NewStore()
 	ls2 := st2.LinkSystem()
